@@ -103,3 +103,12 @@ Example C06_ex_loop_premises :
              Some (mkOp [0; 1] 0 [false; true] [true; false] false)] in
   ops_wellformed 2 sl = true /\ wf [true; false] sl = true.
 Proof. vm_compute. split; reflexivity. Qed.
+
+(* the cluster flip with the labelling the decomposition ACTUALLY returns — no validator hypothesis: the
+   decomposition is proved to return only validated labellings (Proofs/DecomposeProofs.v) *)
+From QmcV Require Import Proofs.DecomposeProofs.
+Theorem C06_cluster_update_keeps_worldline : forall sl st b n flips,
+  decompose sl = Some (b, n) -> vars_in_range (length st) sl = true -> wf st sl = true ->
+  let '(sl', st') := apply_flips sl st b flips in wf st' sl' = true.
+Proof. exact decomposed_flip_wf. Qed.
+Print Assumptions C06_cluster_update_keeps_worldline.
